@@ -662,9 +662,17 @@ func RunStreamCapture(em *Emitter, tr int, st *Stream, capt *Capture) {
 				}
 			}
 		}
+		// "a main record that was present in the batch": the producer's main record, still labelled as
+		// the main type (a related record relabelled as main is not the telemetry's main record)
 		mainPresent := false
+		var origMain []byte
+		for _, pl := range bar.ArrowPayloads {
+			if pl.Type.String() == mainType(sig) {
+				origMain = pl.Record
+			}
+		}
 		for _, pl := range toDecode.ArrowPayloads {
-			if pl.Type.String() == mainType(sig) && len(pl.Record) > 0 {
+			if pl.Type.String() == mainType(sig) && len(pl.Record) > 0 && string(pl.Record) == string(origMain) {
 				mainPresent = true
 			}
 		}
